@@ -2,9 +2,12 @@ package drive
 
 import (
 	"bytes"
+	"encoding/json"
 	"fmt"
 	"io"
 	"math/rand"
+	"time"
+	"verif/internal/tlc"
 
 	"github.com/ulikunitz/xz"
 	"verif/internal/hx"
@@ -18,6 +21,75 @@ type XZRun struct {
 	Closed  bool
 	Failed  bool // a call that the contract says must succeed failed
 	NCalls  int
+	Calls   []xzCall // every public call with its observable result (TraceXzWriter)
+}
+
+// xzCall is one line of a TraceXzWriter trace.
+type xzCall struct {
+	Ev     string `json:"ev"`
+	N      int    `json:"n"`
+	Ret    int    `json:"ret"`
+	Err    string `json:"err"`
+	Delta  int    `json:"delta"`
+	Parsed bool   `json:"parsed"`
+	Blocks []int  `json:"blocks"`
+	BS     int64  `json:"bs"`
+}
+
+// xzTrace renders the call history of one run as TraceXzWriter lines; the block list of the
+// first successful Close is the one the reference parser found in the sink (nil: not parsed).
+func xzTrace(g XZCfg, run XZRun, blocks []int) []byte {
+	var b bytes.Buffer
+	enc := json.NewEncoder(&b)
+	bs := g.BlockSize
+	if bs > 2000000000 {
+		bs = 0
+	}
+	enc.Encode(xzCall{Ev: "Reset", Err: "nil", Blocks: []int{}, BS: bs})
+	first := true
+	for _, cl := range run.Calls {
+		cl.Blocks = []int{}
+		if cl.Ev == "Close" && cl.Err == "nil" && first {
+			first = false
+			if blocks != nil {
+				cl.Parsed, cl.Blocks = true, blocks
+			}
+		}
+		enc.Encode(cl)
+	}
+	return b.Bytes()
+}
+
+// validateXZTraces sends recorded xz.Writer call histories to TLC (TraceXzWriter).
+func validateXZTraces(c *hx.Ctx, tr []byte, ncases int) {
+	if len(tr) == 0 {
+		return
+	}
+	r := c.TLC(tlc.Opts{Module: "TraceXzWriter", Cfg: "TraceXzWriter.cfg", Files: map[string][]byte{"trace.ndjson": tr}, Timeout: 10 * time.Minute, Xss: "256m"})
+	if r.OK {
+		c.Traces += int64(ncases)
+		return
+	}
+	depth := -1
+	for _, p := range r.Printed {
+		var m struct {
+			Kind  string
+			Depth int
+		}
+		if json.Unmarshal([]byte(p), &m) == nil && m.Kind == "depth" {
+			depth = m.Depth
+		}
+	}
+	lines := bytes.Split(tr, []byte("\n"))
+	bad := ""
+	if depth >= 1 && depth <= len(lines) {
+		bad = string(lines[depth-1])
+	}
+	if c.Violations() == 0 {
+		c.Inconclusive("TLC rejects a recorded xz.Writer trace at line %d (%s %s) that the driver's observable oracle accepted: %.300s\n%s", depth, r.Violation, r.ErrText, bad, r.Tail(6))
+	} else {
+		c.Logf("TLC rejects the recorded xz.Writer trace at line %d (consistent with reported violations): %.200s", depth, bad)
+	}
 }
 
 // runXZ replays one call history on xz.Writer and judges the call-level
@@ -74,6 +146,7 @@ func runXZ(c *hx.Ctx, g XZCfg, hist []string, seed int64, fixedData [][]byte) XZ
 		}
 		res.NCalls++
 		delta := sink.Buf.Len() - before
+		res.Calls = append(res.Calls, xzCall{Ev: op, N: len(data), Ret: n, Err: errClass(e, p), Delta: delta})
 		if p != nil {
 			c.Violation(sig("panic", "op", op), fmt.Sprintf("%s panicked: %v", op, p), replay)
 			res.Failed = true
